@@ -7,6 +7,12 @@ ROOT = os.path.dirname(os.path.dirname(os.path.abspath(__file__)))
 ALL = ["C%02d" % i for i in range(1, 21)]
 
 CHECKS = {
+    "C04": dict(
+        technique="Lean 4 proof over an executable model of the getMessages resume loop (prefix/exactly-once theorems for one connection and for a client over any number of connections with arbitrary cuts and node lags), tied to the real getMessages goroutine + real OutputStream by a differential run with concurrent Adds",
+        text="Machine-checked proof that a connection resuming at lastseen=(id,reply) on a node of any lag delivers exactly a prefix of the messages positioned after (id,reply), in order (C04_conn_prefix/complete, lag irrelevant), and that a client reading over any number of successive connections, cut anywhere incl. inside a batch and resuming with the last message it received, has in total received a prefix of its filtered stream: none missing, none twice (C04_client_exactly_once). The model is compared with the real getMessages goroutine on every run.",
+        design_ref="DESIGN.md §4 C04",
+        note="Trusts: Lean kernel; GetNext contract (least stored batch above x: proved in C08); the node's stream is a growing prefix of the id-sorted network output (no compaction inside the window); replies numbered 1..n; the model's faithfulness as exercised by the differential run; the per-session filter of handleGetMessages is applied by the reference.",
+    ),
     "C09": dict(
         technique="Lean 4 refinement proof of a sorted byte-string-map model of the LevelDB store to an abstract (index -> entry, key -> value) spec; differential runs of the real LevelDBStore (incl. close/reopen, JSON->protobuf conversion and SIGKILL/reopen) against the model and a plain map oracle",
         text="Machine-checked proof that big-endian index keys order numerically and never collide with stablestore- keys, that the representation invariant is preserved by every operation, and that GetLog/FirstIndex/LastIndex/StoreLogs/DeleteRange/Set/Get/SetUint64/GetUint64/ConvertToProto/reopen refine the abstract log and stable maps (DeleteRange removes exactly [min,max] incl. 2^64-1 and never touches the stable store; conversion keeps every entry's decoded message). The hand-written model is tied to the code by a differential run on every check.",
